@@ -1,6 +1,6 @@
 (* Properties/C13.v — Trace aggregation is order-independent and right for every partial trace. *)
 From Coq Require Import List NArith ZArith Bool Permutation.
-From SV Require Import Model.Aggregator Gen.AggregatorGen Proofs.Aggregator.
+From SV Require Import Model.Aggregator Gen.AggregatorGen Proofs.Aggregator Proofs.AggregatorLaunch.
 Import ListNotations.
 
 (* ---- Facts read from semantiva/trace/aggregation/aggregator.py on this run ---- *)
@@ -11,6 +11,10 @@ Proof. reflexivity. Qed.
 Lemma gen_run_chain_ok : run_chain_ok gen_rules = true.
 Proof. reflexivity. Qed.
 Lemma gen_terminal : sort_dedup (terminal gen_rules) = [1; 2; 3; 4]%N.   (* succeeded error skipped cancelled *)
+Proof. reflexivity. Qed.
+(* finalize_launch's status chain: start edge only -> partial; both edges -> complete exactly when no
+   run is partial or invalid, else partial (all 8 assignments of pipes / partial / invalid checked) *)
+Lemma gen_launch_chain_ok : launch_chain_ok gen_rules = true.
 Proof. reflexivity. Qed.
 Lemma gen_dispatch : dispatch_ok = true.
 Proof. reflexivity. Qed.
@@ -105,6 +109,50 @@ Theorem C13_launch_rollup :
   lv_total v = (c_complete (lv_counts v) + c_partial (lv_counts v) + c_invalid (lv_counts v))%N.
 Proof. exact (launch_rollup R). Qed.
 
+(* ---- Every crash prefix of a LAUNCH's trace gets the documented launch verdict ---- *)
+(* tr = run_space_start :: body ++ [run_space_end], the body holding no lifecycle edge of this
+   launch (records of its runs, of other launches, anything else).  After n lines: nothing seen ->
+   unknown; start seen -> never missing_start, the planned count kept, the roll-up counting the
+   verdicts of exactly the runs whose pipeline_start (carrying this launch id and attempt) is in
+   the prefix; end edge not in the prefix -> partial with the end edge named; whole trace ->
+   complete exactly when every attached run is complete, else partial. *)
+Theorem C13_launch_prefix_verdict :
+  forall l t planned st body fin n,
+  is_lstart (l, t) planned st = true -> Forall (fun x => not_ledge (l, t) x = true) body ->
+  is_lend (l, t) fin = true ->
+  let tr := st :: body ++ [fin] in
+  let a := ingest_all (firstn n tr) in
+  let v := launch_verdict_at R a (l, Some t) in
+  let runs := lruns (l, t) (firstn (n - 1) body) in
+  let pipes := sort_dedup (rev runs) in
+  (n = 0%nat -> v = unknown_launch) /\
+  (0 < n -> lv_unknown v = false /\ lv_missing_start v = false /\ lv_planned v = planned /\
+            lv_total v = lenN pipes /\
+            c_complete (lv_counts v) = count_status R a Complete pipes /\
+            c_partial (lv_counts v) = count_status R a Partial pipes /\
+            c_invalid (lv_counts v) = count_status R a Invalid pipes) /\
+  (0 < n < length tr -> lv_status v = Partial /\ lv_missing_end v = true) /\
+  (length tr <= n -> lv_missing_end v = false /\
+     ((forall r, In r runs -> rv_status (run_verdict_at R a r) = Complete) -> lv_status v = Complete) /\
+     ((exists r, In r runs /\ rv_status (run_verdict_at R a r) <> Complete) -> lv_status v = Partial)).
+Proof. intros l t planned st body fin n. exact (launch_prefix_verdict R l t planned st body fin n gen_launch_chain_ok). Qed.
+
+(* Run level and launch level together, on the whole file of a launch: all attached runs left
+   start :: SERs ++ [end] (interleaved in any way) -> the launch is complete; one of them was cut
+   before its end edge (the worker died, the launch went on) -> the launch is partial. *)
+Theorem C13_full_launch_verdict :
+  forall l t planned st body fin,
+  is_lstart (l, t) planned st = true -> Forall (fun x => not_ledge (l, t) x = true) body ->
+  is_lend (l, t) fin = true ->
+  let tr := st :: body ++ [fin] in
+  let v := launch_verdict_at R (ingest_all tr) (l, Some t) in
+  ((forall r, In r (lruns (l, t) body) -> run_trace_complete r tr) -> lv_status v = Complete) /\
+  ((exists r, In r (lruns (l, t) body) /\ run_trace_cut r tr) -> lv_status v = Partial).
+Proof.
+  intros l t planned st body fin.
+  exact (full_launch_verdict R l t planned st body fin gen_launch_chain_ok gen_run_chain_ok).
+Qed.
+
 (* ---- Producer / consumer link: runtime-shaped traces are well-formed, and so is every
         prefix, sub-list and permutation of a well-formed list ---- *)
 Theorem C13_runtime_traces_wf :
@@ -160,6 +208,15 @@ Example ex_prefix_verdicts :
   run_verdict_at R a 2 = mkRV false Partial false true false [12; 13]%N [] [] (Some 3%N) 1 1 /\
   launch_verdict_at R a (7%N, Some 1%Z) = mkLV false Partial false true 2 (mkCounts 1 1 0) (Some 2%Z).
 Proof. split; reflexivity. Qed.
+(* the launch trace above meets the hypotheses of the launch-level theorems, and its two runs
+   leave complete run traces (interleaving: run 2's records filtered out of the whole file) *)
+Example ex_launch_hypotheses :
+  is_lstart (7%N, 1%Z) (Some 2%Z) (hd Other launch_trace) = true /\
+  Forall (fun x => not_ledge (7%N, 1%Z) x = true) (run1_trace ++ run2_trace) /\
+  is_lend (7%N, 1%Z) (RSEnd (Some 7%N) (Some 1%Z)) = true /\
+  lruns (7%N, 1%Z) (run1_trace ++ run2_trace) = [1; 2]%N /\
+  filter (touches 2) launch_trace = run2_trace.
+Proof. repeat split; try reflexivity. repeat constructor. Qed.
 (* a reversed trace gives the same verdicts (instance of C13_order_independent) *)
 Example ex_reversed : ingest_all (rev launch_trace) = ingest_all launch_trace.
 Proof. reflexivity. Qed.
@@ -176,6 +233,8 @@ Print Assumptions C13_finalize_idempotent.
 Print Assumptions C13_prefix_verdict.
 Print Assumptions C13_prefix_verdict_interleaved.
 Print Assumptions C13_launch_rollup.
+Print Assumptions C13_launch_prefix_verdict.
+Print Assumptions C13_full_launch_verdict.
 Print Assumptions C13_runtime_traces_wf.
 Print Assumptions C13_wf_closed.
 
